@@ -287,11 +287,15 @@ def gen_config():
     # --- every serde name of CipherKind, INCLUDING the names of the default variant ---
     f = "octo-squirrel/src/codec/aead.rs"
     ck = enum_serde_names(f, "CipherKind")
-    m = re.search(r"#\[default\]\s*(\w+)\s*,", _fn_body(f, r"pub enum CipherKind\s*\{", "enum CipherKind"))
+    enum_body = _fn_body(f, r"pub enum CipherKind\s*\{", "enum CipherKind")
+    m = re.search(r"#\[default\]\s*(?:#\[[^\]]*\]\s*)*(\w+)\s*,", enum_body)
     if not m:
         raise AnchorMissing(f + ": #[default] variant of CipherKind")
     emit("cipher_default_variant", "string", coq_string(m.group(1)), m.group(1), f + " #[default]")
-    rows = [(nm, var) for var, names in ck for nm in names]
+    # variants carrying #[serde(skip)] / #[serde(skip_deserializing)] have NO name a configuration can use
+    skipped = re.findall(r"#\[serde\((?:[^\]]*,\s*)?(?:skip|skip_deserializing)(?:\s*,[^\]]*)?\)\]\s*(?:#\[[^\]]*\]\s*)*(\w+)\s*,", enum_body)
+    emit("cipher_not_deserializable", "list string", _strlist(skipped), skipped, f + " #[serde(skip_deserializing)] variants")
+    rows = [(nm, var) for var, names in ck for nm in names if var not in skipped]
     emit("cipher_names_all", "list (string * string)",
          "[ " + ";\n    ".join("(%s, %s)" % (coq_string(a), coq_string(b)) for a, b in rows) + " ]", rows, f + " serde names, default variant included")
     find("octo-squirrel/src/config.rs", r"#\[serde\(default\)\]\s*pub cipher: CipherKind", what="ServerConfig.cipher is #[serde(default)]")
@@ -365,6 +369,9 @@ def gen_config():
         raise AnchorMissing(f + ": main must bind one UdpSocket and one TcpListener, each under `if config.mode.enable_*()`; found %r" % (guards,))
     emit("client_main_guards", "list (string * string)", "[" + "; ".join("(%s, %s)" % (coq_string(b), coq_string(a)) for a, b in guards) + "]",
          [(b, a) for a, b in guards], f + " main")
+    first_bind = re.search(r"(UdpSocket|TcpListener)::bind\(", body).start()
+    refuses = re.findall(r"if config\.mode\.(enable_\w+)\(\) \{\s*bail!\(", body[:first_bind])
+    emit("client_main_refuses", "list string", _strlist(refuses), refuses, f + " main: `if config.mode.<this>() { bail!(..) }` before any bind")
     keeps = bool(re.search(r"if let Some\(udp_task\) = udp_task \{\s*udp_task\.await", body))
     emit("client_main_awaits_udp_task", "bool", "true" if keeps else "false", keeps, f + " main")
 
@@ -428,6 +435,10 @@ def gen_config():
     if len(joined) != 2 or joined[0] != joined[1]:
         raise AnchorMissing(f + ": both key-size arms must join the same two startup functions; found %r" % (joined,))
     emit("ss_server_joined", "list string", _strlist(list(joined[0])), list(joined[0]), f + " startup")
+    pre = body.split("match config.cipher")[0]
+    needs = re.findall(r"if config\.mode\.(enable_\w+)\(\) && config\.quic\.is_none\(\) \{\s*bail!\(", pre)
+    emit("ss_server_requires_quic_section", "list string", _strlist(needs), needs,
+         f + " startup: `if config.mode.<this>() && config.quic.is_none() { bail!(..) }` before the cipher match and the join")
     m = re.search(r"CipherKind::Unknown => (\w+)!\(\"([^\"]+)\"\)", body)
     if not m:
         raise AnchorMissing(f + ": startup CipherKind::Unknown arm")
@@ -446,6 +457,10 @@ def gen_config():
     emit("ss_server_udp_guard", "list string", _strlist(g), g, f + " startup_udp returns early unless one of these holds")
     if "UdpSocket::bind(" not in m.group(3) or "super::startup_quic(" not in m.group(4):
         raise AnchorMissing(f + ": startup_udp branches (UdpSocket::bind | super::startup_quic)")
+    quic_branch = m.group(4)
+    needs = bool(re.search(r"if config\.quic\.is_none\(\) \{\s*bail!\(", quic_branch.split("super::startup_quic(")[0]))
+    emit("ss_server_quic_branch_requires_section", "bool", "true" if needs else "false", needs,
+         f + " startup_udp else-branch: `if config.quic.is_none() { bail!(..) }` before super::startup_quic")
     emit("ss_server_udp_branch", "string * string * string", "(%s, %s, %s)" % (coq_string(m.group(2)), coq_string("UdpSocket"), coq_string("startup_quic")),
          [m.group(2), "UdpSocket", "startup_quic"], f + " startup_udp: `if mode.<1>() { <2>::bind } else { <3> }`")
 
@@ -481,12 +496,23 @@ def gen_config():
 
     # --- vmess client: how the configured cipher selects the body security ---
     f = "octo-squirrel-client/src/client/vmess.rs"
-    ms = re.findall(r"let security = if (?:\w+\.)?(?:kind|cipher) == CipherKind::(\w+) \{ SecurityType::(\w+) \} else \{ SecurityType::(\w+) \};", src(f))
-    if len(ms) != 2:
-        raise AnchorMissing(f + ": two `let security = if <cipher> == CipherKind::X { SecurityType::A } else { SecurityType::B }` (tcp, udp); found %d" % len(ms))
-    rows = [("tcp",) + ms[0], ("udp",) + ms[1]]
-    emit("vmess_client_security", "list (string * string * string * string)",
-         "[" + "; ".join("(%s)" % ", ".join(coq_string(x) for x in r) for r in rows) + "]", rows, f + " net, the one kind compared, security then, security otherwise")
+    body = _fn_body(f, r"pub\(super\) fn security_type\(kind: CipherKind\)", "vmess security_type")
+    arms = re.findall(r"CipherKind::(\w+) => Ok\(SecurityType::(\w+)\)", body)
+    dflt = re.search(r"\n\s*_ => (\w+)!\(", body)
+    if not arms or not dflt:
+        raise AnchorMissing(f + ": security_type arms `CipherKind::X => Ok(SecurityType::Y)` and a `_ =>` arm")
+    emit("vmess_security_arms", "list (string * string)", "[" + "; ".join("(%s, %s)" % (coq_string(a), coq_string(b)) for a, b in arms) + "]", arms, f + " security_type")
+    emit("vmess_security_otherwise", "string", coq_string(dflt.group(1)), dflt.group(1), f + " security_type `_ =>` arm")
+    callers = []
+    if re.search(r"pub fn new_codec\(addr: &Address, \(kind, password\): \(CipherKind, String\)\)[^{]*\{\s*let security = super::security_type\(kind\)\?;", src(f)):
+        callers.append("tcp")
+    if re.search(r"pub fn new_codec\(addr: &Address, config: &ServerConfig<SslConfig>\)[^{]*\{\s*let security = super::security_type\(config\.cipher\)\?;", src(f)):
+        callers.append("udp")
+    if re.search(r"VMess => \{?\s*template::transfer_tcp\(listener, current, \|c\| vmess::security_type\(c\.cipher\)\.map\(", src("octo-squirrel-client/src/client.rs")):
+        callers.append("context")
+    if "tcp" not in callers or "udp" not in callers:
+        raise AnchorMissing(f + ": tcp::new_codec / udp::new_codec no longer take their security from security_type(..)?")
+    emit("vmess_security_callers", "list string", _strlist(callers), callers, "who calls security_type: per-flow codecs (tcp, udp) and the client context of transfer_tcp")
 
     header = ("(* GENERATED by tools/gen_from_source.py from /repo's working tree -- do not edit. *)\n"
               "From Coq Require Import String List.\nImport ListNotations.\nOpen Scope string_scope.\n\n")
